@@ -156,7 +156,8 @@ Fixpoint pinsert (x : Z * Z) (l : list (Z * Z)) : list (Z * Z) :=
 Definition psort (l : list (Z * Z)) : list (Z * Z) := fold_right pinsert [] l.
 
 (* Context.conflicting(), ids of Context.conflicts() in order, the calls in order, the stop commands found in the
-   real Stopper pipe (sorted), deferred starts, direct starts (in order), the exception if any *)
+   real Stopper pipe (sorted), deferred starts (Stopper.process_start_requests is keyed by application: sorted),
+   direct starts (in order), the exception if any *)
 Definition cobs := (bool * list Z * list call * list (Z * Z) * list Z * list Z * option crash)%type.
 
 Definition all_procs (c : cctx) : list pview := flat_map av_procs c.
@@ -168,7 +169,7 @@ Definition run_case (c : cctx) (s : cstrat) (passed : list Z) : cobs :=
   let confl := flat_map (fun p => match find_pv ps p with Some v => [v] | None => [] end) passed in
   let '(calls, e) := conciliate s confl in
   let pl := plan_of ps calls in
-  (conflicting c, map pv_id (conflicts c), calls, psort (pl_stops pl), pl_deferred pl, pl_direct pl, e).
+  (conflicting c, map pv_id (conflicts c), calls, psort (pl_stops pl), zsort (pl_deferred pl), pl_direct pl, e).
 
 Definition zl_eqb := list_eqb Z.eqb.
 Definition pair_eqb (a b : Z * Z) : bool := Z.eqb (fst a) (fst b) && Z.eqb (snd a) (snd b).
@@ -266,6 +267,14 @@ Definition has_stopping_listed (c : cctx) : bool :=
 Definition wf_ctx (c : cctx) : bool :=
   nodupb (map pv_id (all_procs c)) && forallb (fun p => nodupb (pv_running p)) (all_procs c).
 
+(* H_c05: what C11 (PS-inv) guarantees about a process table in which no listed copy is STOPPING:
+   distinct process ids, duplicate-free running_identifiers and info_map keys, running_identifiers = the instances
+   whose last report is STARTING / BACKOFF / RUNNING, and a conflicting process has a running synthetic state *)
+Definition H_c05 (c : cctx) : bool :=
+  wf_ctx c
+  && forallb (fun p => nodupb (akeys (pv_info p)) && zset_eqb (pv_running p) (copies p)
+                       && (negb (p_conflicting p) || pv_is_running p)) (all_procs c).
+
 (* case: context, strategy, processes handed to conciliate_conflicts, `regular` (= they are context.conflicts()),
    observation of the implementation *)
 Definition case := (cctx * cstrat * list Z * bool * cobs)%type.
@@ -274,7 +283,8 @@ Definition case_mismatch (x : case) : bool :=
   match x with (c, s, passed, _, o) => negb (cobs_eqb (run_case c s passed) o) end.
 
 Definition case_spec_violation (x : case) : bool :=
-  match x with (c, s, _, regular, o) => regular && negb (has_stopping_listed c) && negb (spec_accepts c s o) end.
+  match x with (c, s, _, regular, o) =>
+    regular && negb (has_stopping_listed c) && negb (H_c05 c && spec_accepts c s o) end.
 
 Definition case_known_stopping (x : case) : bool :=
   match x with (c, s, _, regular, o) => regular && has_stopping_listed c && negb (spec_accepts c s o) end.
